@@ -167,6 +167,19 @@ KeyShortcutTwin(i, first) ==
                        ELSE "{\n  " \o KeyStrings[i] \o ": \"x\",\n  @t: 1\n}"
   /\ typ' = KeyStrings[i] /\ expect' = "unknown"
 
+\* ---- an enum list spread over the lines of a /* */ annotation, with // comments in every subset of the five places a
+\* line offers: after the opening bracket, on a line of its own before the first item, after the first item, on a line
+\* of its own between the items, after the last item.  The comments are presentation: the list is ["a", "b"].
+Bit(m, k) == (m \div (2 ^ k)) % 2 = 1
+EnumLines(m, val) ==
+  /\ stage = "start" /\ fam' = "enumlines" /\ stage' = "done" /\ list' = <<>>
+  /\ root' = val \o " /* {enum: [" \o (IF Bit(m, 0) THEN " // c0" ELSE "") \o "\n"
+               \o (IF Bit(m, 1) THEN "  // c1\n" ELSE "")
+               \o "  \"a\"," \o (IF Bit(m, 2) THEN " // c2" ELSE "") \o "\n"
+               \o (IF Bit(m, 3) THEN "  // c3\n" ELSE "")
+               \o "  \"b\"" \o (IF Bit(m, 4) THEN " // c4" ELSE "") \o "\n]} */"
+  /\ typ' = "" /\ expect' = (IF val = "\"z\"" THEN "reject" ELSE "accept")
+
 \* ---- size: n members that all refer to one user type (or carry one rule each), for the sizes at which an
 \* implementation may switch its bookkeeping or meet a limit.  The text is long and regular: the specification gives
 \* shape and size, `root` holds the member pattern with # for the member number, the harness repeats it n times.
@@ -250,6 +263,7 @@ Next == \/ StartEnum
         \/ \E i \in 1..Len(EchoTexts), k \in 1..Len(EchoSites) : Echo(i, k)
         \/ \E i \in 1..Len(KeyStrings), v \in {1, 4, 8} : KeyShortcut(i, v)
         \/ \E i \in 1..Len(KeyStrings), f \in BOOLEAN : KeyShortcutTwin(i, f)
+        \/ \E m \in 0..31, val \in {"\"a\"", "\"b\"", "\"z\""} : EnumLines(m, val)
         \/ \E v \in OrValues, i, j \in 1..Len(TypeVocab), fi, fj \in {"name", "set"}, s \in {"root", "prop"}, nf \in BOOLEAN : OrVocab(v, i, j, fi, fj, s, nf)
 Spec == Init /\ [][Next]_vars
 
